@@ -151,6 +151,10 @@ def documented(case):
                 if v % b: return False
             if k in ("max_digits", "decimal_places"):
                 d = v if isinstance(v, Decimal) else Decimal(str(v))
+                if k == "max_digits" and isinstance(v, Decimal) and "decimal_places" in cons and d.is_finite() \
+                        and -d.as_tuple().exponent <= cons["decimal_places"]:
+                    # documented order: a Decimal is first completed to `decimal_places`, then max_digits is judged
+                    d = round(d, cons["decimal_places"])
                 if not d.is_finite(): return False
                 t = d.as_tuple()
                 nd, e = len(t.digits), t.exponent
